@@ -406,6 +406,10 @@ class SymEval:
             if len(args) == 1 and p.split("::")[-2:] in (["String", "from"], ["ToOwned", "to_owned"], ["ToString", "to_string"], ["Clone", "clone"],
                                                          ["Into", "into"], ["From", "from"], ["str", "to_owned"], ["Cow", "Borrowed"], ["Cow", "Owned"]):
                 return args[0]          # conversions that keep the value
+            if p.split("::")[-1] in ("from_le_bytes", "from_be_bytes") and len(args) == 1 and isinstance(args[0], tuple) and args[0] and args[0][0] == "list" \
+                    and all(isinstance(x, int) and not isinstance(x, bool) for x in args[0][1]):
+                bs = list(args[0][1]) if p.endswith("from_le_bytes") else list(reversed(args[0][1]))
+                return sum(b_ << (8 * i_) for i_, b_ in enumerate(bs))
             if p.split("::")[-2:] == ["array", "from_fn"] and len(args) == 1:
                 n_ = None
                 hint = (self.hint.get(id(e)) or "")
@@ -900,6 +904,24 @@ class SymEval:
                 return ("list", out)
             if m == "rev" and not args:
                 return ("list", list(reversed(items)))
+            if m == "try_for_each" and len(args) == 1:
+                for x in items:
+                    r_ = self.apply(args[0], [x])
+                    if r_ == NONE or (isinstance(r_, tuple) and r_ and r_[0] == "err"):
+                        return r_
+                    if not (isinstance(r_, tuple) and r_ and r_[0] in ("ok", "some")):
+                        self.fail("try_for_each over a closure of unknown result shape", e)
+                return ("ok", UNIT)
+            if m == "try_fold" and len(args) == 2:
+                acc = args[0]
+                for x in items:
+                    r_ = self.apply(args[1], [acc, x])
+                    if r_ == NONE or (isinstance(r_, tuple) and r_ and r_[0] == "err"):
+                        return r_
+                    if not (isinstance(r_, tuple) and r_ and r_[0] in ("ok", "some")):
+                        self.fail("try_fold over a closure of unknown result shape", e)
+                    acc = r_[1]
+                return ("ok", acc)
             if m == "fold" and len(args) == 2:
                 acc = args[0]
                 for x in items:
@@ -1242,6 +1264,11 @@ class SymEval:
                 items[lo:hi] = src[1]
                 env[name] = ("list", items)
                 return UNIT
+        if isinstance(recv, int) and not isinstance(recv, bool) and m in ("to_le_bytes", "to_be_bytes") and not args:
+            # the width is the number of elements the destructuring pattern asks for (4 when unknown: spirv::Word)
+            n_ = getattr(self, "bytes_hint", None) or 4
+            bs = [(recv >> (8 * i_)) & 0xff for i_ in range(n_)]
+            return ("list", bs if m == "to_le_bytes" else list(reversed(bs)))
         if isinstance(recv, bool) and m == "then" and len(args) == 1:
             return ("some", self.apply(args[0], [])) if recv else NONE
         if isinstance(recv, bool) and m == "then_some" and len(args) == 1:
